@@ -446,9 +446,9 @@ tfpdeftests:
 |	tfpdeftests ',' tfpdeftest
 	{
 		$$ = append($$, $3)
-		if $<expr>3 != nil {
-			$<exprs>$ = append($<exprs>$, $<expr>3)
-		}
+		// keyword only arguments: one entry for each argument, nil if
+		// it has no default, so KwDefaults[i] belongs to Kwonlyargs[i]
+		$<exprs>$ = append($<exprs>$, $<expr>3)
 	}
 
 tfpdeftests1:
@@ -539,9 +539,9 @@ vfpdeftests:
 |	vfpdeftests ',' vfpdeftest
 	{
 		$$ = append($$, $3)
-		if $<expr>3 != nil {
-			$<exprs>$ = append($<exprs>$, $<expr>3)
-		}
+		// keyword only arguments: one entry for each argument, nil if
+		// it has no default, so KwDefaults[i] belongs to Kwonlyargs[i]
+		$<exprs>$ = append($<exprs>$, $<expr>3)
 	}
 
 vfpdeftests1:
